@@ -379,6 +379,8 @@ class World:
             self.check_instance(o, cname, fl, "replace", sample=True)
             self.stats.probes["replace_then_accessors"] += 1
             return "ok"
+        if what in ("suspend", "resume"):
+            return self.suspend_resume(op, C, cname, fl)
         if what == "partial":
             # an accessor's generator abandoned after `take` items (any(...), next(iter(...)), a break): only a
             # perturbation of the history, every later full call must still be exact
@@ -429,6 +431,65 @@ class World:
             raise SkipOp("no instance")
         self.mark(cname)
         self.check_one(o, cname, fl, what, {**DEFAULT_FLAGS, **op.get("flags", {})}, op.get("sort", False))
+        return "ok"
+
+    def suspend_resume(self, op: dict[str, Any], C: Any, cname: str, fl: list[dict[str, Any]]) -> str:
+        """An accessor's generator taken for a few items, left suspended while other events run (also the very
+        first call of a class, i.e. the bootstrap function), then drained: the items of both parts together must
+        be exactly what one uninterrupted call yields."""
+        susp = self.__dict__.setdefault("_susp", {})
+        if op["what"] == "suspend":
+            flags = {**DEFAULT_FLAGS, **op.get("flags", {})}
+            acc, sort = op["acc"], op.get("sort", False)
+            o = None
+            if acc == "get_property_fields":
+                it = iter(C.get_property_fields(**flags))
+            else:
+                o = self.inst.get(op.get("inst", ""))
+                if o is None:
+                    raise SkipOp("no instance")
+                if acc == "get_properties":
+                    it = iter(o.get_properties(**flags, sort_keys=sort))
+                elif acc == "iter_child_fields":
+                    it = iter(o.iter_child_fields(sort_keys=sort))
+                else:
+                    it = iter(o.get_child_nodes_with_field(sort_keys=sort))
+            self.mark(cname)
+            items = []
+            for x in it:
+                items.append(x)
+                if len(items) >= op.get("take", 1):
+                    break
+            susp[op["key"]] = (it, items, acc, flags, sort, o, cname, self.h)
+            self.stats.probes["accessor_generator_suspended"] += 1
+            return "ok"
+        ent = susp.pop(op["key"], None)
+        if ent is None:
+            raise SkipOp("nothing suspended")
+        it, items, acc, flags, sort, o, cn, h = ent
+        items = items + list(it)
+        if h is not self.h:
+            return "ok:redefined"  # the class was defined again meanwhile: the old generator belongs to the old class
+        fl = linear(self.h, cn)
+        childs = [f for f in fl if not is_prop(f)]
+        cs = sorted(childs, key=lambda f: f["name"]) if sort else childs
+        if acc == "get_property_fields":
+            got, want = [f.name for f in items], ref_property_fields(fl, flags, False)
+        elif acc == "get_properties":
+            got, want = [f.name for _v, f in items], ref_property_fields(fl, flags, sort)
+        elif acc == "iter_child_fields":
+            got, want = [f.name for _v, f in items], [f["name"] for f in cs]
+        else:
+            got = [(f.name, i) for _c, f, i in items]
+            want = []
+            for f in cs:
+                v = getattr(o, f["name"])
+                if f["kind"] in ("tuple", "fixed"):
+                    want += [(f["name"], i) for i in range(len(v))]
+                elif v is not None:
+                    want.append((f["name"], None))
+        if got != want:
+            raise self.viol("C12.10 suspended-accessor", f"C12.10:{acc}", f"{cn}.{acc}({self.fstr(flags)}, sort_keys={sort}) suspended after {op.get('take')} item(s) and drained later yields {got}, expected {want}", src=self.src)
         return "ok"
 
     def op_cube(self, op: dict[str, Any]) -> str:
@@ -736,6 +797,13 @@ class Gen:
                 evs.append({"op": "event", "cls": cn, "what": "partial", "inst": inst, "acc": r.choice(["get_properties", "get_child_nodes", "get_child_nodes_with_field", "iter_child_fields", "get_property_fields"]), "take": r.choice([1, 1, 2]), "flags": r.choice([{}, {k: r.random() < 0.5 for k in FLAGS}]), "sort": r.random() < 0.5})
             for what in r.sample(["get_properties", "get_child_nodes", "get_child_nodes_with_field", "iter_child_fields", "children", "to_properties_dict"], r.choice([1, 2, 4, 6])):
                 evs.append({"op": "event", "cls": cn, "what": what, "inst": inst, "flags": {k: r.random() < 0.5 for k in FLAGS}, "sort": r.random() < 0.5})
+            if r.random() < 0.2:
+                # suspended across the other events of this class (and, when interleaved, of the other classes)
+                acc = r.choice(["get_properties", "get_child_nodes_with_field", "iter_child_fields", "get_property_fields"])
+                key = f"s{ni}"
+                pos = next(i for i, e in enumerate(evs) if e["what"] == "instantiate") + 1
+                evs.insert(pos if acc != "get_property_fields" or r.random() < 0.5 else 0, {"op": "event", "cls": cn, "what": "suspend", "key": key, "inst": inst, "acc": acc, "take": r.choice([0, 1, 1, 2]), "flags": r.choice([{}, {k: r.random() < 0.5 for k in FLAGS}]), "sort": r.random() < 0.5})
+                evs.append({"op": "event", "cls": cn, "what": "resume", "key": key})
             events.append(evs)
         # interleave the per-class event lists (keeping each list's internal order)
         flat: list[dict[str, Any]] = []
